@@ -286,8 +286,64 @@ class C18Check(object):
 
         def scripted():
             """Sequences that rare history bugs need (bias, cf. 'place faults inside operations')."""
-            nonlocal npots
-            kind = r.choice(["fmm_order_change", "fmm_explicit", "pot_pair", "clear_reuse", "mass_order", "peer_retry", "fmm_other_field"])
+            nonlocal npots, nspaces, nops
+            kind = r.choice(["fmm_order_change", "fmm_explicit", "pot_pair", "clear_reuse", "mass_order", "peer_retry",
+                             "fmm_other_field", "space_variant_pair", "space_variant_pair"])
+            if kind == "space_variant_pair":
+                # two spaces on ONE grid that differ in a single option, the same operator on each, one after
+                # the other: exposes state keyed by the grid although it depends on the space
+                nonlocal nspaces, nops
+                cands = [sp for sp in b["ops"]]
+                spec = copy.deepcopy(r.choice(cands))
+                dk, tk = _admissible(spec, b["kinds"])
+                if not dk or not tk:
+                    return
+                kd = r.choice(dk)
+                doms = sorted(set(int(x) for x in raws[0][2]))
+                ne = raws[0][1].shape[1]
+                base = {"kind": kd}
+                variant = {"kind": kd}
+                choice = r.choice(["swapped", "segments", "support", "boundary"])
+                if choice == "swapped" and len(doms) > 1:
+                    variant["swapped_normals"] = sorted(r.sample(doms, r.randint(1, len(doms) - 1)))
+                elif choice == "segments" and len(doms) > 1:
+                    variant["segments"] = sorted(r.sample(doms, r.randint(1, len(doms) - 1)))
+                    variant["include_boundary_dofs"] = True
+                elif choice == "support" and ne > 3:
+                    variant["support_elements"] = sorted(r.sample(range(ne), r.randint(2, ne - 1)))
+                    variant["include_boundary_dofs"] = True
+                else:
+                    variant["include_boundary_dofs"] = True
+                    variant["truncate_at_segment_edge"] = r.random() < 0.5
+                    if len(doms) > 1:
+                        variant["segments"] = sorted(r.sample(doms, r.randint(1, len(doms) - 1)))
+                first, second = (base, variant) if r.random() < 0.5 else (variant, base)
+                asm = None if spec["family"] == "sparse" else r.choice(["fmm", "fmm", "dense", "only_singular_part"] if enable["fmm"] else ["dense", "only_singular_part"])
+                idx = []
+                for spc in (first, second):
+                    add({"t": "create_space", "grid": 0, "spec": spc})
+                    space_kinds.append((kd, 0))
+                    nspaces += 1
+                    si = nspaces - 1
+                    ti = si
+                    if kd not in tk:
+                        add({"t": "create_space", "grid": 0, "spec": dict(spc, kind=tk[0])})
+                        space_kinds.append((tk[0], 0))
+                        nspaces += 1
+                        ti = nspaces - 1
+                    add({"t": "create_op", "spec": copy.deepcopy(spec), "dom": si, "dual": ti, "assembler": asm, "precision": None, "params": None})
+                    nops += 1
+                    idx.append(nops - 1)
+                    add({"t": r.choice(["weak_form", "weak_form", "matvec"]), "op": nops - 1, "vseed": r.randrange(1 << 30)})
+                    if b.get("pot") is not None and kd not in ("SNC", "RBC") and r.random() < 0.5:
+                        okp = (kd in ("RWG", "BC")) == (b["pot"]["family"] == "maxwell")
+                        if okp:
+                            add({"t": "create_pot", "spec": copy.deepcopy(b["pot"]), "space": si, "npoints": 3,
+                                 "assembler": ("fmm" if enable["fmm"] and r.random() < 0.6 else "dense"), "precision": None, "params": None})
+                            npots += 1
+                            add({"t": "evaluate", "pot": npots - 1, "vseed": r.randrange(1 << 30)})
+                add({"t": "matvec", "op": idx[0], "vseed": r.randrange(1 << 30)})
+                return
             if kind in ("fmm_order_change", "fmm_other_field"):
                 a = fmm_op()
                 if a is None:
